@@ -832,9 +832,15 @@ func (c *Client) Start() (addr net.Addr, err error) {
 	go func() {
 		defer c.clientWaitGroup.Done()
 		defer c.pipesWaitGroup.Done()
+
+		stdout := runner.Stdout()
+		// When the scanner stops on an error (e.g. bufio.ErrTooLong for a line
+		// of 64 KiB or more) keep reading, so that the plugin never blocks
+		// writing to a stdout pipe nobody drains. Runs after linesCh is closed.
+		defer io.Copy(io.Discard, stdout)
 		defer close(linesCh)
 
-		scanner := bufio.NewScanner(runner.Stdout())
+		scanner := bufio.NewScanner(stdout)
 		for scanner.Scan() {
 			linesCh <- scanner.Text()
 		}
